@@ -16,6 +16,8 @@ A program is a list of nodes (JSON):
   ["pmap", n, body]                       (doall (pmap (fn [i] body) (range n)))
   ["latefut", pairs, body]                future created inside (with-bindings pairs ...) which the creator
                                           LEAVES before the body starts (gated by a promise)
+  ["refut", pairs, body, how]             bound fn made in the current context, then passed AS IT IS to future-call /
+                                          bound-fn* inside (with-bindings pairs ...): both contexts reach the worker
   ["bflocal", body, after]                bound-fn created, creator runs `after`, then calls it
                                           on the SAME thread: it must still see creation-time values
 
@@ -111,6 +113,12 @@ class Model:
             child = [dict(self.flat(env + [{v: val for v, val in n[1]}]))]
             cctx = {"kind": "conveyed", "failed": [False]}
             self.run(n[2], child, cctx)
+        elif t == "refut":
+            # bound fn made HERE (context A = env), handed as it is to future-call / bound-fn* inside
+            # (with-bindings pairs ...) (context B): the worker gets B's bindings and, on top, A's snapshot
+            child = [dict(self.flat(env + [{v: val for v, val in n[1]}])), dict(self.flat(env))]
+            cctx = {"kind": "conveyed", "failed": [False]}
+            self.run(n[2], child, cctx)
         elif t == "boundfn":
             child = [dict(self.flat(env))]
             cctx = {"kind": "conveyed", "failed": [False]}
@@ -197,6 +205,13 @@ def _emit(n):
         nm = f"lf_{_ctr[0]}"
         return (f"(let [gate_{nm} (promise) {nm} (with-bindings (hash-map {_pairs_text(n[1], None, True)}) "
                 f"(future (deref gate_{nm}) {emit(n[2])}))] (deliver gate_{nm} true) (deref {nm}))")
+    if t == "refut":
+        _ctr[0] += 1
+        nm = f"rbf_{_ctr[0]}"
+        m = f"(hash-map {_pairs_text(n[1], None, True)})"
+        if n[3] == "future-call":
+            return f"(let [{nm} (bound-fn [] {emit(n[2])})] (with-bindings {m} (deref (future-call {nm}))))"
+        return f"(let [{nm} (bound-fn [] {emit(n[2])})] (run-thread! (with-bindings {m} (bound-fn* {nm}))))"
     if t == "boundfn":
         return f"(run-thread! (bound-fn [] {emit(n[1])}))"
     if t == "bflocal":
